@@ -28,6 +28,8 @@ Proved at full strength (for all d, p ≥ 1, d + p ≤ 256, all payload sizes th
                               ratio (any groups, any order, duplicates, re-fills after a recovery, late arrivals, discards,
                               the wrap) is the padded body of an original data packet of a group of which a packet was fed,
                               and `trim` of it is that packet's payload.
+* `C07_fresh_decoder_anywhere` a fresh decoder recovers a group at ANY position of the id space, incl. ids ≥ 2^31 (regression
+                              theorem for finding D13, repaired).
 * `C07_wrap_groups`          `paws` is a multiple of n; the encoder keeps `next < paws` and `next % n` = shard index; a group
                               never straddles the wrap; after a group `next` is the next group start (0 exactly at `paws`),
                               with parity generated or skipped alike; the step across the wrap is seen by the age comparison
@@ -194,6 +196,29 @@ theorem C07_dec_sound {C : CodecNew} (hC : Lawful C) (grp : FecDec.Family) (d p 
         (∃ j, j < G.n ∧ G.packet C j ∈ pkts) ∧
         ∃ k, k < G.d ∧ r = pad G.maxLen (G.bodies.getD k []) ∧ trim r = some (G.payloads.getD k []) :=
   (FecDec.dec_sound_new hC grp d p dec hnew pkts hgen).2.2
+
+/-- `fresh_decoder_anywhere` (regression theorem for finding D13): a FRESH decoder recovers a group at
+    ANY position of the id space — no hypothesis on `G.base` beyond well-formedness, in particular
+    ids ≥ 2^31 where the signed age comparison with the initial `newestShardId = 0` is negative.
+    Any `d` distinct packets of the group, fed in any order to `Decoder.new`, return exactly the
+    zero-padded bodies of the data packets not among them, and `trim` gives their payloads.
+    (Before the repair "the discard horizon starts at the first packet when no shard set exists" the
+    model, like the code, discarded every shard set at once for such ids and returned nothing.) -/
+theorem C07_fresh_decoder_anywhere {C : CodecNew} (hC : Lawful C) {G : Group} (hG : G.WF) (dec : Decoder)
+    (hnew : Decoder.new C G.d G.p = some dec) (idxs : List Nat) (hnd : idxs.Pairwise (· ≠ ·))
+    (hb : ∀ i ∈ idxs, i < G.n) (hlen : idxs.length = G.d) :
+    (FecDec.feed C dec (idxs.map (G.packet C))).2
+      = (List.range G.d).filterMap
+          (fun k => if k ∈ idxs then none else some (pad G.maxLen (G.bodies.getD k []))) ∧
+    ((FecDec.feed C dec (idxs.map (G.packet C))).2).map trim
+      = (List.range G.d).filterMap
+          (fun k => if k ∈ idxs then none else some (some (G.payloads.getD k []))) :=
+  ⟨FecDec.fresh_decoder_anywhere hC hG dec hnew idxs hnd hb hlen,
+   FecDec.fresh_decoder_anywhere_trim hC hG dec hnew idxs hnd hb hlen⟩
+
+-- non-vacuity: a well-formed 2/1 group at id 3000000000 ≥ 2^31
+example : FecDec.Example.exHigh.WF ∧ 2 ^ 31 ≤ FecDec.Example.exHigh.base.toNat :=
+  ⟨FecDec.Example.exHigh_wf, by decide⟩
 
 /-! ## parity loss -/
 
